@@ -451,6 +451,78 @@ pub fn run(ctx: &Ctx) -> Report {
         let smax = ctx.pick(3, 6);
         jobs.push(Box::new(move || ("ecm B1=500 B2=2.3e6 (FFT stage 2)".into(), ecm_pair(500, 2.3e6, lo, hi, &all, false, true, 2..=smax))));
     }
+    // ---- gcd_factors (the batch-gcd splitter behind every stage): small-scope exhaustive.
+    // For n = p1*p2*p3 and every assignment of first-appearance positions of the three primes
+    // in a sequence of every length L, the factors must come out grouped exactly by position
+    // (primes entering at different positions are separated; those present from position 0 are
+    // not reported), and the cofactor must be n / product.
+    {
+        let lmax3 = ctx.pick(20usize, 32);
+        let lmax2 = ctx.pick(48usize, 96);
+        jobs.push(Box::new(move || {
+            let mut t = Tally::new();
+            let ps = [1000003u64, 1000033, 1000037];
+            let sweep = |t: &mut Tally, k: usize, lmax: usize| {
+                let n: u64 = ps[..k].iter().product::<u64>();
+                let nu = Uint::from_digit(n);
+                let zn = ZmodN::new(nu);
+                for len in 1..=lmax {
+                    let total = (len + 1).pow(k as u32);
+                    for code in 0..total {
+                        let mut c = code;
+                        let mut pos = [0usize; 3];
+                        for i in 0..k {
+                            pos[i] = c % (len + 1); // len = never appears
+                            c /= len + 1;
+                        }
+                        let vals: Vec<_> = (0..len)
+                            .map(|j| {
+                                let mut v = 7u64; // a unit
+                                for i in 0..k {
+                                    if pos[i] <= j {
+                                        v = v * ps[i] % n;
+                                    }
+                                }
+                                // a zero residue stands for "all primes present"
+                                zn.from_int(Uint::from_digit(v))
+                            })
+                            .collect();
+                        // expected groups
+                        let mut groups: std::collections::BTreeMap<usize, u64> = Default::default();
+                        for i in 0..k {
+                            if pos[i] >= 1 && pos[i] < len {
+                                *groups.entry(pos[i]).or_insert(1) *= ps[i];
+                            }
+                        }
+                        let mut want: Vec<u64> = groups.values().cloned().collect();
+                        want.sort_unstable();
+                        t.evals += 1;
+                        let r = guarded(|| yamaquasi::arith_montgomery::gcd_factors(&nu, &vals));
+                        match r {
+                            Err(e) => t.bad.push((format!("method=gcd_factors;what=panic;site={}", e.site), format!("gcd_factors panicked for first-appearance positions {:?} in a sequence of length {}: {}", &pos[..k], len, e.short()))),
+                            Ok((facs, cof)) => {
+                                let mut got: Vec<u64> = facs.iter().map(|f| f.digits()[0]).collect();
+                                got.sort_unstable();
+                                let prod: u64 = want.iter().product();
+                                if got != want || cof != Uint::from_digit(n / prod) {
+                                    t.bad.push((
+                                        "method=gcd_factors;what=wrong-grouping".into(),
+                                        format!("gcd_factors(n={}, {} values) with the primes {:?} first dividing the values at positions {:?} returned factors {:?} cofactor {} (expected {:?}, {})", n, len, &ps[..k], &pos[..k], got, cof, want, n / prod),
+                                    ));
+                                    if t.bad.len() > 20 {
+                                        return;
+                                    }
+                                }
+                            }
+                        }
+                    }
+                }
+            };
+            sweep(&mut t, 3, lmax3);
+            sweep(&mut t, 2, lmax2);
+            ("gcd_factors small scope".into(), t)
+        }));
+    }
     // ---- return shape of the remaining routines on small composites
     {
         let primes = primes.clone();
